@@ -9,6 +9,7 @@ which is the lattice Fourier sum of the property statement with the multiplicity
 import z3
 
 from pvc.core import Contract, LoopSpec
+from contracts import replay_dynmat as RD
 from pvc.cexec import NS, tdiv
 from pvc.spec import RecSum
 
@@ -132,7 +133,7 @@ def get_dm_contract():
                 out.append(("re[%d,%d]" % (a, b), V.a.dm[a, b, 0] == V.old.a.dm[a, b, 0] + fe * S.cosS(k, i, m)))
                 out.append(("im[%d,%d]" % (a, b), V.a.dm[a, b, 1] == V.old.a.dm[a, b, 1] + fe * S.sinS(k, i, m)))
         return out
-    return Contract(F, "get_dm", shapes=SHAPES, nullable=("charge_sum",), macros={"PI": PI}, requires=req, ensures=ens,
+    return Contract(F, "get_dm", replay_fn=RD.replay_at_q, shapes=SHAPES, nullable=("charge_sum",), macros={"PI": PI}, requires=req, ensures=ens,
                     modifies=("dm",), loops={0: LoopSpec(inv0, unfold=unfold0)})
 
 
@@ -184,7 +185,7 @@ def get_dynmat_ij_contract():
                    z3.Not(z3.And(a_ >= 3 * i, a_ < 3 * i + 3, b_ >= 3 * j, b_ < 3 * j + 3))),
             D[a_, b_, c_] == D0[a_, b_, c_]))))
         return out
-    return Contract(F, "get_dynmat_ij", shapes=SHAPES, nullable=("charge_sum",), macros={"PI": PI}, requires=req, ensures=ens,
+    return Contract(F, "get_dynmat_ij", replay_fn=RD.replay_at_q, shapes=SHAPES, nullable=("charge_sum",), macros={"PI": PI}, requires=req, ensures=ens,
                     modifies=("dynamical_matrix",), loops={2: LoopSpec(inv_k, unfold=unfold_k)},
                     use_contracts={"get_dm"})
 
@@ -296,7 +297,7 @@ def dynmat_at_q_contract():
                     z3.And(x >= 0, x < n3, y >= 0, y < n3),
                     z3.And(D[x, y, 0] == D[y, x, 0], D[x, y, 1] == -D[y, x, 1])))),
                 ("ret", V.ret == 0)]
-    return Contract(F, "dym_get_dynamical_matrix_at_q", shapes=SHAPES, nullable=("charge_sum",), macros={"PI": PI},
+    return Contract(F, "dym_get_dynamical_matrix_at_q", replay_fn=RD.replay_at_q, shapes=SHAPES, nullable=("charge_sum",), macros={"PI": PI},
                     requires=req, ensures=ens, modifies=("dynamical_matrix",),
                     loops={0: LoopSpec(inv_ij), 1: LoopSpec(inv_i), 2: LoopSpec(inv_j)},
                     use_contracts={"get_dynmat_ij", "make_Hermitian"})
@@ -452,7 +453,7 @@ def dynmat_want_contract():
                     z3.And(a_ >= 0, a_ < np_, b_ >= 0, b_ < np_, x_ >= 0, x_ < 3, y_ >= 0, y_ < 3),
                     cs[a_, b_, x_, y_] == qZ(qq, born, a_, x_) * qZ(qq, born, b_, y_) * fac)))))
         return out
-    return Contract(F, "get_dynmat_want", shapes=WANT_SHAPES, nullable=("q_direction", "q_dir_cart"), macros={"PI": PI},
+    return Contract(F, "get_dynmat_want", replay_fn=RD.replay_want, shapes=WANT_SHAPES, nullable=("q_direction", "q_dir_cart"), macros={"PI": PI},
                     local_shapes={"charge_sum": lambda V: [V.p.num_patom, V.p.num_patom, 3, 3]},
                     requires=req, ensures=ens, modifies=("dynamical_matrices",), split=1, abstract_mul=True,
                     derived=lambda V: [("num_satom / num_patom == n_cells", tdiv(V.p.num_satom, V.p.num_patom) == NCELL,
